@@ -145,6 +145,7 @@ func EditsLevel(text string, level int) []string {
 	add(" " + text)
 	add("/* c */ " + text)
 	add("\t\n" + text)
+	add("\ufeff" + text)
 	if full {
 		for _, b := range tb {
 			for _, t := range EditTokens {
